@@ -332,6 +332,12 @@ func c14Requests(rng *rand.Rand, g *jgen, ops []c14op, base string, per int, cfg
 		case 8:
 			hdrs = append(hdrs, [2]string{"Content-Type", []string{"text/plain", "application/json; charset=utf-8", "", "multipart/form-data"}[rng.Intn(4)]})
 			kind = "content-type"
+		case 9:
+			// the spec file's own path (and near misses), with the spec-file handler installed or not, behind middlewares or not
+			path = base + []string{"/openapi.yaml", "/openapi.yaml", "/openapi.yaml/", "/openapi.yam", "/openapi.yaml/x"}[rng.Intn(5)]
+			cfg = []string{"sf=1,authdflt=any", "sf=1,mw=2,authdflt=any", "sf=1,nf=1,cors=1,authdflt=any", "authdflt=any"}[rng.Intn(4)] + cfgExtra
+			method = []string{"GET", "GET", "POST", "OPTIONS", method}[rng.Intn(5)]
+			kind = "spec-file"
 		}
 		rawurl := path
 		if rawq != "" {
